@@ -146,3 +146,20 @@ func VHHistory() {
 	l := New[int]()
 	lists.VSeqHistory(l, lists.VExt{Name: "DoublyLinkedList", Append: l.Append, Prepend: l.Prepend, IndexOf: l.IndexOf, Inv: func() { VInv(l) }})
 }
+
+// VGStrListOf builds the list of strings holding exactly vals.
+func VGStrListOf(vals []string) *List[string] {
+	l := &List[string]{size: len(vals)}
+	var prev *element[string]
+	for _, x := range vals {
+		e := &element[string]{value: x, prev: prev}
+		if prev == nil {
+			l.first = e
+		} else {
+			prev.next = e
+		}
+		prev = e
+	}
+	l.last = prev
+	return l
+}
